@@ -1,6 +1,8 @@
 (** C08 — HTLC deadlines: the node acts before money can be lost to a timeout.
-    This file holds only theorem statements closed by [exact]; proofs are in Proofs/C08.v. *)
-Require Import LdkV.Prim.U64 LdkV.Gen.Consts LdkV.Model.CltvHand LdkV.Model.Timeline LdkV.Proofs.C08.
+    This file holds only theorem statements closed by [exact]; proofs are in Proofs/C08.v.
+    All predicates and constants are the definitions REGENERATED from the Rust source by tools/rs2v
+    (Gen/Consts.v, Gen/CltvChecks.v) on every run. *)
+Require Import LdkV.Prim.U64 LdkV.Gen.Consts LdkV.Gen.CltvChecks LdkV.Model.CltvHand LdkV.Model.Timeline LdkV.Proofs.C08.
 Open Scope Z_scope.
 
 Theorem C08_static_assertions :
@@ -19,40 +21,40 @@ Theorem C08_constant_relations :
 Proof. exact constant_relations. Qed.
 
 Theorem C08_forward_margins : forall h out inn d,
-  h_check_incoming_htlc_cltv h out inn d = ROk tt <->
+  check_incoming_htlc_cltv h out inn d = ROk tt <->
   (inn >= out + d /\ inn > h + HTLC_FAIL_BACK_BUFFER /\ inn <= h + CLTV_FAR_FAR_AWAY /\
    out > h + LATENCY_GRACE_PERIOD_BLOCKS).
 Proof. exact fwd_ok_iff. Qed.
 
 Theorem C08_forward_errors : forall h out inn d,
-  (inn < out + d -> h_check_incoming_htlc_cltv h out inn d = RErr "IncorrectCLTVExpiry") /\
+  (inn < out + d -> check_incoming_htlc_cltv h out inn d = RErr "IncorrectCLTVExpiry") /\
   (inn >= out + d -> inn <= h + HTLC_FAIL_BACK_BUFFER ->
-     h_check_incoming_htlc_cltv h out inn d = RErr "CLTVExpiryTooSoon") /\
+     check_incoming_htlc_cltv h out inn d = RErr "CLTVExpiryTooSoon") /\
   (inn >= out + d -> inn > h + HTLC_FAIL_BACK_BUFFER -> inn > h + CLTV_FAR_FAR_AWAY ->
-     h_check_incoming_htlc_cltv h out inn d = RErr "CLTVExpiryTooFar") /\
+     check_incoming_htlc_cltv h out inn d = RErr "CLTVExpiryTooFar") /\
   (inn >= out + d -> inn > h + HTLC_FAIL_BACK_BUFFER -> inn <= h + CLTV_FAR_FAR_AWAY ->
      out <= h + LATENCY_GRACE_PERIOD_BLOCKS ->
-     h_check_incoming_htlc_cltv h out inn d = RErr "OutgoingCLTVTooSoon").
+     check_incoming_htlc_cltv h out inn d = RErr "OutgoingCLTVTooSoon").
 Proof. exact fwd_errors. Qed.
 
 Theorem C08_forward_no_panic : forall h out inn d,
-  0 <= h -> h + CLTV_FAR_FAR_AWAY < 2 ^ 32 ->
-  h_check_incoming_htlc_cltv_safe h out inn d = true.
+  0 <= h -> h + CLTV_FAR_FAR_AWAY < 2 ^ 32 -> 0 <= out < 2 ^ 32 -> 0 <= d < 2 ^ 16 ->
+  check_incoming_htlc_cltv_safe h out inn d = true.
 Proof. exact fwd_safe. Qed.
 
 Theorem C08_receive_margins : forall cltv h,
   0 <= h ->
-  h_final_expiry_too_soon cltv h = false ->
+  final_hop_cltv_too_soon cltv h = false ->
   cltv > h + HTLC_FAIL_BACK_BUFFER + 1 /\
   claim_deadline cltv > h + 1 /\
-  h_check_onchain_timeout_safe cltv h = true /\
-  (forall h', h' < claim_deadline cltv -> h_check_onchain_timeout cltv h' = false) /\
-  (forall h', claim_deadline cltv <= h' -> h_check_onchain_timeout cltv h' = true).
+  check_onchain_timeout_safe cltv h = true /\
+  (forall h', h' < claim_deadline cltv -> check_onchain_timeout cltv h' = false) /\
+  (forall h', claim_deadline cltv <= h' -> check_onchain_timeout cltv h' = true).
 Proof. exact receive_margins. Qed.
 
 Theorem C08_failback_before_onchain : forall cltv h,
   h < claim_deadline cltv + LATENCY_GRACE_PERIOD_BLOCKS ->
-  h_should_broadcast false cltv h true = false.
+  should_broadcast_htlc_timeout false cltv h true = false.
 Proof. exact failback_before_onchain. Qed.
 
 Theorem C08_claim_in_time : forall cltv h0 t,
@@ -62,16 +64,19 @@ Theorem C08_claim_in_time : forall cltv h0 t,
 Proof. exact claim_in_time. Qed.
 
 Theorem C08_outbound_grace : forall expiry H,
-  h_should_broadcast true expiry H false = true <-> H >= expiry + LATENCY_GRACE_PERIOD_BLOCKS.
+  should_broadcast_htlc_timeout true expiry H false = true <-> H >= expiry + LATENCY_GRACE_PERIOD_BLOCKS.
 Proof. exact outbound_grace. Qed.
 
 Theorem C08_no_onchain_without_preimage : forall cltv H,
-  h_should_broadcast false cltv H false = false.
+  should_broadcast_htlc_timeout false cltv H false = false.
 Proof. exact inbound_no_preimage. Qed.
 
-Theorem C08_failback_after_burial : forall height csv,
-  h_confirmation_threshold height csv >= height + ANTI_REORG_DELAY - 1 /\
-  (forall c, csv = Some c -> h_confirmation_threshold height csv >= height + c - 1).
+Theorem C08_failback_after_burial : forall height kind delay csv,
+  confirmation_threshold height kind delay csv >= height + ANTI_REORG_DELAY - 1 /\
+  (kind = OnchainEventKind_MaturingDelayedPaymentOutput ->
+     confirmation_threshold height kind delay csv >= height + delay - 1) /\
+  (forall c, kind = OnchainEventKind_SpendConfirmation -> csv = Some c ->
+     confirmation_threshold height kind delay csv >= height + c - 1).
 Proof. exact threshold_ge. Qed.
 
 Theorem C08_forward_race_won : forall h0 out_cltv in_cltv d t,
@@ -89,7 +94,7 @@ Proof. exact forward_race_won. Qed.
 Example C08_fwd_timeline_exists :
   fwd_timeline_ok 700 600 {| tl_H := 703; tl_c1 := 721; tl_c2 := 739; tl_F := 744 |}.
 Proof.
-  unfold fwd_timeline_ok, first_fires, confirms_within, h_confirmation_threshold, h_should_broadcast.
+  unfold fwd_timeline_ok, first_fires, confirms_within, confirmation_threshold, should_broadcast_htlc_timeout.
   cbn [tl_H tl_c1 tl_c2 tl_F negb andb orb].
   unfold LATENCY_GRACE_PERIOD_BLOCKS, MAX_BLOCKS_FOR_CONF, ANTI_REORG_DELAY.
   repeat split; try lia; intros; lia.
@@ -97,8 +102,17 @@ Qed.
 Example C08_claim_timeline_exists :
   claim_timeline_ok 700 600 {| ct_H := 664; ct_c1 := 682; ct_c2 := 700 |}.
 Proof.
-  unfold claim_timeline_ok, first_fires, confirms_within, h_should_broadcast.
+  unfold claim_timeline_ok, first_fires, confirms_within, should_broadcast_htlc_timeout.
   cbn [ct_H ct_c1 ct_c2 negb andb orb].
   unfold CLTV_CLAIM_BUFFER, MAX_BLOCKS_FOR_CONF.
   repeat split; try lia; intros; lia.
 Qed.
+
+Theorem C08_hand_model_is_generated_code :
+  (forall h o i d, h_check_incoming_htlc_cltv h o i d = check_incoming_htlc_cltv h o i d) /\
+  (forall c h, h_check_onchain_timeout c h = check_onchain_timeout c h) /\
+  (forall c h, h_final_expiry_too_soon c h = final_hop_cltv_too_soon c h) /\
+  (forall o c h p, h_should_broadcast o c h p = should_broadcast_htlc_timeout o c h p) /\
+  (forall h c, h_confirmation_threshold h (Some c) = confirmation_threshold h OnchainEventKind_SpendConfirmation 0 (Some c)) /\
+  (forall h, h_confirmation_threshold h None = confirmation_threshold h OnchainEventKind_Other 0 None).
+Proof. exact hand_eq_gen. Qed.
